@@ -46,7 +46,7 @@ for _fn, _pre in (("cast_to_float", "cast_to_float"), ("convert_to_float_modular
               "bounded:2x1 %s grid, %s (every sample value)" % (_t, _bt),
               ["ImageBuffer::" + _fn, "AlignedGrid::with_alloc_tracker"],
               "Ok => the f32 copy is charged to the source's tracker (exactly its buffer size) and the source's bytes return; "
-              "Err => only on exhaustion, buffer and budget unchanged", timeout=300)
+              "Err => only on exhaustion, buffer and budget unchanged", timeout=1500, tier="thorough")
 for _h in ("float_conversion_values_i16", "float_conversion_values_i32"):
     K("ib." + _h, ["C15", "C03", "C01"], "jxl-render", _IM, _IMM, _h, "bounded:2x1 grid (every sample, every bit depth 1..=31)",
       ["ImageBuffer::cast_to_float", "ImageBuffer::convert_to_float_modular"],
